@@ -58,6 +58,7 @@ def run_scenario(initiator, kind, sender_threads=0, ctt=2.0, deadline=6.0, trigg
     link = sess.link
     n_out0 = len(A.packetizer.out_ids)
     n_bout0 = len(B.packetizer.out_ids)
+    n_bin0 = len(B.packetizer.in_ids)
     # 1. B's traffic is delayed from now on
     link.hold(b_side)
     result = {"exc": {}}
@@ -76,6 +77,18 @@ def run_scenario(initiator, kind, sender_threads=0, ctt=2.0, deadline=6.0, trigg
                 chB2.shutdown_write()
             elif kind == "close":
                 chB2.close()
+            elif kind.startswith("requests_x"):
+                # several requests that want a reply, one per message, on both channels
+                for j in range(int(kind[len("requests_x"):])):
+                    cb = (chB, chB2)[j % 2]
+                    m = Message(); m.add_byte(bytes([98])); m.add_int(cb.remote_chanid)
+                    m.add_string("window-change" if B is sess.tc else "exit-status")
+                    m.add_boolean(True)
+                    if B is sess.tc:
+                        m.add_int(80 + j); m.add_int(24); m.add_int(0); m.add_int(0)
+                    else:
+                        m.add_int(3 + j)
+                    B._send_user_message(m)
             elif kind in ("chan_request_reply", "chan_request_noreply"):
                 m = Message(); m.add_byte(bytes([98])); m.add_int(chB.remote_chanid)
                 m.add_string("window-change" if B is sess.tc else "exit-status")
@@ -260,6 +273,13 @@ def run_scenario(initiator, kind, sender_threads=0, ctt=2.0, deadline=6.0, trigg
             while "global" not in result and "global" not in result["exc"] and time.time() < end:
                 time.sleep(0.01)
             delivered = "global" in result
+        elif kind.startswith("requests_x"):
+            want = int(kind[len("requests_x"):])
+            end = time.time() + deadline
+            nrep = lambda: sum(1 for x in B.packetizer.in_ids[n_bin0:] if x[0] in (99, 100))
+            while nrep() < want and time.time() < end:
+                time.sleep(0.01)
+            delivered = nrep() == want
         elif kind == "gated_user_send":
             delivered = chB.recv(64) == b"gated-user-data"
         elif kind == "open_confirm_inflight":
